@@ -253,7 +253,7 @@ impl Engine for CmdSim {
     fn runs(&self, tier: Tier) -> u64 {
         match tier {
             Tier::Quick => 60_000,
-            Tier::Thorough => 6_000_000,
+            Tier::Thorough => 10_000_000,
         }
     }
     fn heartbeat(&self) -> u64 {
